@@ -117,7 +117,10 @@ Connects ==
       props == ConnectPkts({TRUE}, {NoWill}, {FALSE}, {FALSE}, {300}, PropSeqs(1), {<<>>}, {Txt(3)}, {<<>>})
       wills == ConnectPkts({FALSE}, {[w |-> TRUE, wq |-> 1, wr |-> TRUE], [w |-> TRUE, wq |-> 2, wr |-> FALSE]},
                            {FALSE, TRUE}, {FALSE}, {0}, {<<>>}, PropSeqs(WILLCTX), {Txt(3)}, {<<>>, Bin(3)})
-  IN flags \cup plain \cup props \cup wills
+      \* user name / password flag set with a zero-length field (a frame the library's own writer never produces)
+      emptycreds == {[q EXCEPT !.v = [x \in DOMAIN q.v |-> IF x \in {"Username", "Password"} /\ (j = 3 \/ (j = 1) = (x = "Username")) THEN <<>> ELSE q.v[x]]] :
+                       q \in {r \in flags : "Username" \in DOMAIN r.v /\ "Password" \in DOMAIN r.v /\ r.v["ConnectFlags"] \div 4 % 2 = 0}, j \in 1..3}
+  IN flags \cup plain \cup props \cup wills \cup emptycreds
 
 ConnAcks == { [t |-> 2, fl |-> 0, v |-> [AckFlags |-> x.a, ReasonCode |-> x.r, Props |-> x.ps]] :
               x \in {y \in [a : {0, 1}, r : {0, 128, 135}, ps : PropSeqs(2)] : y.r = 0 \/ y.a = 0} }
